@@ -65,6 +65,9 @@ static long sim_clock_base = 1790000000L; /* $SIM_CLOCK_BASE: where the simulate
 static int dtype_unknown = 0;      /* $SIM_DT_UNKNOWN: readdir reports d_type DT_UNKNOWN, as some file systems do */
 static char mount_pre[512];        /* "mount <rel>": that directory of the world is the root of another file system */
 static size_t mount_len = 0;
+static long stdout_sig_nth = 0;    /* "stdout_sig_at <n> <signo>": the signal arrives while the n-th write to fd 1 is in progress */
+static int stdout_sig_signo = 0;
+static long stdout1_writes = 0;
 static int stdout_dies_with_signal = 0; /* "stdout_sig 1": from the first raised signal on, writes to fd 1/2 fail with EPIPE
                                           (the reader of the pipe got the same Ctrl-C and is gone) */
 static volatile int signal_raised = 0;
@@ -236,6 +239,8 @@ static void load_plan(const char *path)
             perm_readdir = atoi(line + 5);
         } else if (!strncmp(line, "stdout_fail ", 12)) {
             stdout_fail_after = atol(line + 12);
+        } else if (!strncmp(line, "stdout_sig_at ", 14)) {
+            sscanf(line + 14, "%ld %d", &stdout_sig_nth, &stdout_sig_signo);
         } else if (!strncmp(line, "stdout_sig ", 11)) {
             stdout_dies_with_signal = atoi(line + 11);
         } else if (!strncmp(line, "mount ", 6)) {
@@ -838,6 +843,12 @@ ssize_t write(int fd, const void *buf, size_t n)
     do_init();
     const char *rel = fd_rel(fd);
     if (!rel) {
+        if (active && stdout_sig_nth > 0 && fd == 1 && __sync_add_and_fetch(&stdout1_writes, 1) == stdout_sig_nth) {
+            /* the caller is in the middle of printing a line (it holds whatever locks printing takes) */
+            tracef("-\tSIGNAL\tstdout\t%d\t%ld\t0\t0\tinwrite\n", stdout_sig_signo, opk);
+            signal_raised = 1;
+            raise(stdout_sig_signo);
+        }
         if (active && stdout_dies_with_signal && signal_raised && (fd == 1 || fd == 2)) {
             static int told = 0;
             if (!__sync_fetch_and_add(&told, 1))
